@@ -166,6 +166,20 @@ def run(call: GeneratorCall) -> Module:
     # This is helpful even if (especially if) we find it's a circular dependency next.
     the_cache.stack.append(call)
 
+    try:
+        return _run(call)
+    except BaseException:
+        # A failed call is neither pending nor done: calling again runs the generator again.
+        the_cache.stack.pop()
+        if call.gen.enable_cache:
+            the_cache.pending.discard(call)
+        raise
+
+
+def _run(call: GeneratorCall) -> Module:
+    """The part of `run` done with `call` on the call stack."""
+    the_cache = Generator.Cache
+
     if call.gen.enable_cache:
         # Check for circular dependencies.
         # Note this uses a hash-set of `GeneratorCall`s, so only hashable ones get checked.
